@@ -208,6 +208,9 @@ def run(prog, rep, tier, cfg):
                 X.arg_has('K10', 'add_balance:credits-received-value', c, 3, ['C:MessageInfo::value_received'], 'escrow is credited with exactly the value received', narrow=False)
                 X.arg_has('K10', 'add_balance:nominal', c, 2, ['T:fil_actor_market::escrow_address.0'], 'under the nominal address', narrow=False)
     X.guard('K6b', 'add_balance:positive', AB, [c.bb for c in AB.calls if (c.defp or '') == TX], m_rel('le', ['C:MessageInfo::value_received'], ['C:zero'], False), 'value <= 0 => Err')
+    # ---- running totals (amounts, power, datacap) accumulated in loops keep their earlier contributions
+    X.accumulator_integrity('K12', 'running-totals', ['fil_actor_market'], 'running totals of amounts')
+
 
 
 def withdraw_gates(prog, rep, X, prefix=''):
